@@ -67,6 +67,8 @@ ThmExpiry == Is("expiry") =>
     /\ \/ e = Hi /\ Floor(h, ExpMod) + ExpWin >= Hi
        \/ IsBoundary(e, ExpMod) /\ e - h > ExpMod /\ e - h <= ExpWin /\ e = Floor(h, ExpMod) + ExpWin
     /\ \A g \in H : Floor(g, ExpMod) = Floor(h, ExpMod) => ExpiryHeight(g) = e   \* shared by the whole period
+    /\ (e < Hi => CanonicalExpiryValue(e))
+    /\ (CanonicalExpiryValue(h) <=> \E g \in H : Floor(g, ExpMod) + ExpWin = h)
 
 \* shuffles: every sequence of swap draws yields a permutation, and every permutation is reachable
 ThmShuffle == Is("shuffle") => IsPerm(p.a, FisherYates(p.a, x))
